@@ -154,12 +154,7 @@ func (h *c07Harness) backend() kvdb.Backend {
 }
 
 func c07OpenBolt(dir string) (kvdb.Backend, error) {
-	return kvdb.GetBoltBackend(&kvdb.BoltBackendConfig{
-		DBPath:         dir,
-		DBFileName:     "c07.db",
-		NoFreelistSync: true,
-		DBTimeout:      kvdb.DefaultDBTimeout,
-	})
+	return c07OpenKV(dir, "c07.db")
 }
 
 // newMap (re)creates the circuit map on the DB file of the harness.
